@@ -256,6 +256,72 @@ func c27AddOffset(e parser.Expr, d time.Duration) {
 // __name__ is removed from the label sets.
 const c27SigDelayedMerge = "c27-delayed-name-removal-series-merge"
 
+// Third finding: PreprocessExpr decides whether an aggregation is step invariant from its
+// operand only (`case *parser.AggregateExpr: return preprocessExprHelper(n.Expr, ...)`); a
+// parameter that changes with time (`quantile(scalar(q), m @ 0)`, `topk(scalar(k), m @ 0)`)
+// is then evaluated once at the range start and used for every step. Input predicate: some
+// aggregation has a parameter that reads a selector without @ (or time()), while every
+// selector of its operand is pinned with @ and the operand calls no function of the
+// evaluation time.
+const c27SigAggParam = "c27-aggregation-param-not-step-invariant"
+
+var c27TimeDependentFns = map[string]bool{"time": true, "timestamp": true, "start_timestamp": true, "days_in_month": true, "day_of_month": true,
+	"day_of_week": true, "day_of_year": true, "hour": true, "minute": true, "month": true, "year": true, "predict_linear": true,
+	"ts_of_first_over_time": true, "ts_of_last_over_time": true, "ts_of_max_over_time": true, "ts_of_min_over_time": true}
+
+func c27KnownAggParam(e parser.Expr) bool {
+	hit := false
+	parser.Inspect(e, func(n parser.Node, _ []parser.Node) error {
+		a, ok := n.(*parser.AggregateExpr)
+		if !ok || a.Param == nil {
+			return nil
+		}
+		paramVaries := false
+		parser.Inspect(a.Param, func(m parser.Node, _ []parser.Node) error {
+			switch x := m.(type) {
+			case *parser.VectorSelector:
+				if x.Timestamp == nil {
+					paramVaries = true
+				}
+			case *parser.Call:
+				if c27TimeDependentFns[x.Func.Name] {
+					paramVaries = true
+				}
+			}
+			return nil
+		})
+		pinned, sels := true, 0
+		parser.Inspect(a.Expr, func(m parser.Node, path []parser.Node) error {
+			switch x := m.(type) {
+			case *parser.VectorSelector:
+				sels++
+				if x.Timestamp == nil {
+					// pinned through an enclosing subquery with @?
+					under := false
+					for _, p := range path {
+						if sq, ok := p.(*parser.SubqueryExpr); ok && sq.Timestamp != nil {
+							under = true
+						}
+					}
+					if !under {
+						pinned = false
+					}
+				}
+			case *parser.Call:
+				if c27TimeDependentFns[x.Func.Name] {
+					pinned = false
+				}
+			}
+			return nil
+		})
+		if paramVaries && pinned && sels > 0 {
+			hit = true
+		}
+		return nil
+	})
+	return hit
+}
+
 var c27reName = regexp.MustCompile(`__name__="(?:[^"\\]|\\.)*"(?:, )?`)
 
 func c27StripName(s c27Step) (c27Step, bool) {
@@ -741,6 +807,9 @@ func runC27(c c27Case, r *ev.Rec) error {
 				c.Expr, c.Eng.LookbackMs, c.Eng.Delayed, c.Eng.UseST, c.Start, end, c.Step, i, ts, d, c27StepString(rs), c27StepString(is))
 			if c.Eng.Delayed && kop == "" && c27NameOnlyDiff(rs, is, rel) {
 				return ev.FailSig(c27SigDelayedMerge, "%s", msg)
+			}
+			if c27KnownAggParam(ast) {
+				return ev.FailSig(c27SigAggParam, "%s", msg)
 			}
 			return ev.Failf("%s", msg)
 		}
